@@ -22,7 +22,10 @@ pub struct Tokenizer<'a> {
 
 impl<'a> Tokenizer<'a> {
     pub fn new(buf: &'a [u8]) -> Self {
-        Tokenizer::from_byte_iter(buf.iter())
+        let mut toks = Tokenizer::from_byte_iter(buf.iter());
+        // Whitespace may precede the first program header
+        util::skip_ws(&mut toks.chars);
+        toks
     }
 
     pub fn new_params(buf: &'a [u8]) -> Self {
